@@ -5,7 +5,8 @@ import itertools
 
 from ..core import Prop, Violation
 from .. import cffl
-from ..cffl import GATES, VERDICTS, ODD_VERDICTS, Ob, cfg_line, BUDGETS, BIG_ADVANCES, real_prompt, EXC_TOKENS, EXC_FAMILY, vd
+from ..cffl import (GATES, VERDICTS, ODD_VERDICTS, Ob, cfg_line, BUDGETS, BIG_ADVANCES, real_prompt, EXC_TOKENS, EXC_FAMILY, vd,
+                    NEAR_BASE, NEAR_GROUPS)
 from ..extract import e2
 
 PERMIT_EXEC = ("EXECUTE", "PERMIT")      # "executor permits"
@@ -122,6 +123,8 @@ class C07(Prop):
                     p = str(rng.randrange(npr)) if rng.random() < 0.93 else "u" + str(rng.randrange(2))
                     if rng.random() < 0.1:
                         p = str(rng.randrange(16))     # the special prompt strings
+                    elif rng.random() < 0.06:          # distinct prompts that some canonicalisation would identify
+                        p = str(NEAR_BASE + rng.choice(rng.choice(NEAR_GROUPS)))
                     lines.append(f"run {p} {z} {y}")
                 elif u < 0.78:
                     lines.append(self._nest_line(rng, [str(rng.randrange(npr)) for _ in range(rng.choice([2, 2, 3]))], ttl))
@@ -284,6 +287,18 @@ class C07(Prop):
                                "all 6 gate logics x agent exception kinds {KeyError(), __repr__ raises, __str__ raises, "
                                "BaseException; executor / assessor} and x on_block / on_permit callbacks {unset, returns, raises}^2 "
                                "x 5 verdict pairs, each followed by repeats", "cases": exck})
+        near = []
+        for grp in NEAR_GROUPS:
+            for a, b in itertools.permutations(grp, 2):
+                for g in ("and", "or"):
+                    near.append({"lines": [cfg_line(g, False, 5, 60_000_000, True, TTL), f"run {NEAR_BASE + a} EXECUTE PERMIT",
+                                           f"run {NEAR_BASE + b} BLOCK BLOCK", f"run {NEAR_BASE + a} BLOCK BLOCK",
+                                           f"run {NEAR_BASE + b} EXECUTE PERMIT"],
+                                 "note": "two DISTINCT prompts that are equal under Unicode NFC / NFKC, case folding or white-space "
+                                         "normalisation: each is answered from its own verdicts, each token is bound to its own hash"})
+        spaces.append({"name": "ordered pairs of distinct prompts equal under NFC / NFKC / case / white-space / invisible-character "
+                               "canonicalisation x {AND, OR}: a permitted request, then its near-equal twin with blocking "
+                               "verdicts, then both again", "cases": near})
         if tier == "thorough":
             more = []
             for g in GATES:
